@@ -393,6 +393,10 @@ MUTANTS = {
     "rev_fix_loss_gamma_dtype": {
         "props": ["C06"], "what": "revert fix cd8082c (loss moments): the loss is evaluated on labels / predictions in their own dtype",
         "edits": [(BGL, "            self.tags[_LABEL].astype(np.float64), self.tags[_PREDICTION].astype(np.float64)\n", "            self.tags[_LABEL], self.tags[_PREDICTION]\n")]},
+    "rev_fix_selection_rate_weight_dtype": {
+        "props": ["C11"], "what": "revert fix 9edbd66: selection_rate accumulates the weights in their own (narrow integer) dtype",
+        "edits": [(BM, "        s_w = _convert_to_ndarray_and_squeeze(sample_weight).astype(np.float64)\n\n    return np.dot(selected, s_w) / s_w.sum()",
+                   "        s_w = _convert_to_ndarray_and_squeeze(sample_weight)\n\n    return np.dot(selected, s_w) / s_w.sum()")]},
     "rev_fix_error_rate_parity_uint8": {
         "props": ["C06"], "what": "revert fix 1283ce5: ErrorRateParity utilities built in the labels' own dtype",
         "edits": [(UP, "        utilities = np.vstack([y_float, 1 - y_float]).T", "        utilities = np.vstack([y_train, 1 - y_train]).T")]},
